@@ -24,6 +24,8 @@ CHECKS = {
          'Every reply and the dump of all 16 databases after the explored histories match a 16-way model in which a command touches only the database selected on its connection at that time.'),
  'C02': ('model_checking', 'TLC model checking of the implementation-shaped expiry mechanism (spec/impl/ImplSweeper.tla) + random TTL histories, stale-index scenarios (two sweeper passes) and the forced collect/delete race (sync-point hook) on the real server + TLC trace validation with deadline intervals on the observer clock',
          'Every read of the explored histories, through every command family, sees a key with a TTL exactly until its deadline (interval reasoning on the observer clock), and no key without a due deadline is ever deleted, including in the sweeper race window that the hook forces.'),
+ 'C13': ('model_checking', 'TLC model checking of the blocking-pop reference relation with ghost conservation bags (MC_Blocking) + directed and seeded random asynchronous schedules on the real server ordered by the server-side log of commands, wake-ups and time-outs (hooks H3/H4), registry snapshot (H5) at quiescent points + TLC trace validation',
+         'For every explored schedule every reply, every served/time-out event, the final lists and the registry snapshot are what the reference relation allows: elements conserved, FIFO service per key, nobody stranded at quiescence, no leftover registration, time-outs not early and not missing.'),
 }
 NOT_YET = {}
 
